@@ -37,7 +37,14 @@ def impl_eval(case):
     try:
         with warnings.catch_warnings():
             warnings.simplefilter("ignore")
-            ocf = PreOCF.init_custom(dict(ranks), signature=list(names))
+            if case.get("with_bb"):
+                # a belief base over a reordered subset of the atoms is passed along with the explicit signature: the explicit one counts
+                from inference.belief_base import BeliefBase
+                bsig = [names[i] for i in case["with_bb"]]
+                bb = BeliefBase(bsig, {1: Conditional(core.f_pysmt(("a", case["with_bb"][0]), names), core.f_pysmt(("T",), names), "(x|Top)")}, "kb")
+                ocf = PreOCF.init_custom(dict(ranks), bb, list(names))
+            else:
+                ocf = PreOCF.init_custom(dict(ranks), signature=list(names))
             out["frank"] = [ocf.formula_rank(core.f_pysmt(f, names)) for f in case["formulas"]]
             out["accept"] = [bool(ocf.conditional_acceptance(Conditional(core.f_pysmt(b, names), core.f_pysmt(a, names), "c")))
                              for b, a in case["conds"]]
@@ -218,7 +225,12 @@ def gen_case(rng, n=None, max_rank=6):
     m = len(distinct)
     incr = sorted(rng.sample(range(0, 3 * m + 3), m))
     arbitrary = [rng.randint(0, 5) for _ in range(m)]
-    return {"n": n, "ranks": ranks, "formulas": formulas, "conds": conds, "drops": drops, "marg_formulas": margf,
+    with_bb = None
+    if n >= 2 and rng.random() < 0.25:
+        with_bb = rng.sample(range(n), rng.randint(1, n))
+        if with_bb == list(range(n)):
+            with_bb = with_bb[::-1]
+    return {"n": n, "ranks": ranks, "formulas": formulas, "conds": conds, "drops": drops, "marg_formulas": margf, "with_bb": with_bb,
             "numberings": [distinct, incr, arbitrary]}
 
 
